@@ -18,18 +18,33 @@ func (r *Report) replay(o *Obligation, sr *SolveResult) ReplayResult {
 	if os.Getenv("VERIF_NO_REPLAY") != "" {
 		return ReplayResult{Summary: "replay skipped (self-test run)"}
 	}
+	var first ReplayResult
 	if sr.Status != "refuted" {
-		return ReplayResult{Summary: "no model: every solver answered unknown or timed out (" + sr.Detail + ")"}
-	}
-	for _, d := range replayDrivers {
-		if d.match(o.Name) {
-			lastGoReplay = nil
-			rr := d.run(r, o, sr)
-			rr.Invocation = lastGoReplay
-			return rr
+		first = ReplayResult{Summary: "no model: every solver answered unknown or timed out (" + sr.Detail + ")"}
+	} else {
+		first = ReplayResult{Summary: "the solver produced a model but no replay driver is registered for this function; the model is in solver_output"}
+		for _, d := range replayDrivers {
+			if d.match(o.Name) {
+				lastGoReplay = nil
+				rr := d.run(r, o, sr)
+				rr.Invocation = lastGoReplay
+				if rr.Confirmed {
+					return rr
+				}
+				first = rr
+				break
+			}
 		}
 	}
-	return ReplayResult{Summary: "the solver produced a model but no replay driver is registered for this function; the model is in solver_output"}
+	// no input confirmed so far: the demonstrations of the seeded corpus recorded against this clause
+	lastGoReplay = nil
+	if cr, ok := corpusReplay(r, o); ok {
+		cr.Invocation = lastGoReplay
+		return cr
+	} else if cr.Summary != "" {
+		first.Summary += " | " + cr.Summary
+	}
+	return first
 }
 
 type replayDriver struct {
